@@ -97,6 +97,7 @@ class Read:
                 via = rng.choice(['handle', 'handle', 'read_nc', 'dataset_read', 'file_read'])
                 # the file may hold, before 'v', a variable over the same dimensions in the REVERSE order: the file's dimension order
                 # then differs from v's own, and a read through the dataset (a list of names) must still index v by dimension NAME
+                if isinstance(o[2], dict) and 'axis' in o[2] and rng.random() < 0.6: via = rng.choice(['read_nc', 'read_nc', 'dataset_read'])      # indices for ONE axis, named by axis=
                 rev = len(a['dims']) >= 2 and all(len(l) > 0 for l in a['labels']) and rng.random() < 0.5
                 if rev: stats['read_file_dims_reversed'][via] += 1
                 cases.append({'arr': a, 'get': o[1:5], 'fmt': fmt, 'via': via, 'rev_first': rev})
